@@ -6,9 +6,11 @@ import (
 	"os"
 	"runtime"
 	"strings"
+	"time"
 
 	"verif/harness/internal/core"
 	"verif/harness/internal/hs"
+	"verif/harness/internal/rig"
 )
 
 // hsConfigs returns the server configuration lattice for a tier ("quick": a representative subset).
@@ -33,6 +35,8 @@ func hsConfigs(tier string) []hs.Config {
 		add(hs.Config{Comp: comps[0], Enc: encs[0], Schemes: schemes[0], TLSCapable: true, AuthSource: "tape", Tape: []string{"member+cut"}, Register: "echo"})
 		add(hs.Config{Comp: comps[0], Enc: encs[1], Schemes: schemes[0], TLSCapable: true, AuthSource: "tape", Tape: []string{"member"}, Register: "echo", TLSVia: "getconfig"})
 		add(hs.Config{Comp: comps[0], Enc: encs[0], Schemes: schemes[0], TLSCapable: true, AuthSource: "tape", Tape: []string{"unknown+cut"}, Register: "echo"})
+		// a client that keeps talking cleartext after tls was confirmed: the server's TLS handshake fails
+		add(hs.Config{Comp: comps[0], Enc: encs[1], Schemes: schemes[0], TLSCapable: true, AuthSource: "tape", Tape: []string{"member"}, Register: "echo", ClientSkipsTLS: true})
 		return out
 	}
 	tapes := [][]string{{"member"}, {"roundtrip", "member"}, {"unknown"}, {"roundtrip", "roundtrip-norole", "authority"}, {"norole"}, {"error"}, {"roundtrip", "unknown"}, {"member+cut"}, {"roundtrip", "member+cut"}, {"unknown+cut"}}
@@ -160,6 +164,9 @@ func runExplorerCase(r *core.Result, props []string, c core.Case) {
 		return
 	}
 	defer ex.Close()
+	// what the idle server runs: thousands of connections later (most of them failed handshakes) nothing may have
+	// been added to it
+	servingG := rig.StableLimeGoroutineCount()
 	want := map[string]bool{}
 	for _, p := range props {
 		want[p] = true
@@ -261,6 +268,17 @@ func runExplorerCase(r *core.Result, props []string, c core.Case) {
 		}
 		return true
 	})
+	if want["C14"] && len(r.Findings) == 0 {
+		if left := rig.WaitLimeGoroutines(servingG, 10*time.Second); len(left) > servingG {
+			if core.CanaryWorstMS() > 250 {
+				r.Count("inconclusive_census_under_load", 1)
+			} else {
+				r.Violate("C14/goroutines-left/explorer", fmt.Sprintf("config %s: %d lime-owned goroutines with the server idle before the runs, %d after %d connections had come and gone (server still serving): %v", cfg.Key(), servingG, len(left), r.Evals, rig.Sites(left)))
+			}
+		} else {
+			r.Count("census_clean_after_runs", 1)
+		}
+	}
 	estTotal := ex.TotalEstablished()
 	r.Count("established_callbacks_distinct_sessions", estTotal)
 	for k := range fps {
